@@ -97,6 +97,7 @@ func phiStep(p *ssa.Phi) int {
 
 func c12(c *Ctx) {
 	r := c.R
+	c12static(c)
 	r.Decides("LeveledUpdateBatch runs the merge pass over the levels in ascending order and the exact pass in descending order, merge pass first, both over the same batch")
 	r.Decides("cpuset.cpus, cpu.cfs_quota_us and memory.min/low/high are registered with a mergeable updater and the matching merge condition")
 	r.Decides("every write of LeveledUpdateBatch/updateByCache is dominated by needUpdate()==true (unchanged files are not rewritten); a merge write happens only when the merge condition says so and writes the merged value")
@@ -635,4 +636,30 @@ func c12writeIfDifferent(c *Ctx) {
 		bad = append(bad, c.InstrPos(ret))
 	}
 	r.Check(len(f) >= 3 && len(bad) == 0, "PATH", key+"/skip-reasons", c.InstrPos(read), "the write is skipped only for equal contents", sprintf("the write can be skipped although the file content differs from the target (return at %s; %d equalities recognised): the value is cached as written and the file keeps the stale content", strings.Join(bad, ","), len(f)))
+}
+
+// c12static: with the kubelet static policy the upper levels are loosened before the containers get their sets.
+func c12static(c *Ctx) {
+	r := c.R
+	r.Decides("under the kubelet static CPU policy the BE qos/pod levels are recovered (loosened, top-down) before the container-level sets are written, on every path: a container set may contain CPUs the still-suppressed pod level does not have")
+	r.Rule("ORDER(static policy): in CPUSuppress.applyBESuppressCPUSet, on the static-policy branch, applyCPUSetWithStaticPolicy is not reachable without recoverCPUSetIfNeed(PodCgroupPathRelativeDepth) having run first (a child cpuset must be contained in its parent's after every single write)")
+	fn := c.Fn(suppressPkg, "CPUSuppress", "applyBESuppressCPUSet")
+	if fn == nil {
+		return
+	}
+	var rec, app ssa.CallInstruction
+	for _, cl := range an.Calls(fn, false) {
+		switch an.ShortCallee(cl.Common()) {
+		case "recoverCPUSetIfNeed":
+			rec = cl
+		case "applyCPUSetWithStaticPolicy":
+			app = cl
+		}
+	}
+	key := fkey(fn) + "/loosen-parents-first"
+	if rec == nil || app == nil {
+		r.Fail("ORDER", key, c.Pos(fn.Pos()), sprintf("recoverCPUSetIfNeed found=%v, applyCPUSetWithStaticPolicy found=%v", rec != nil, app != nil))
+		return
+	}
+	r.Check(mustPass(rec, app), "ORDER", key, c.InstrPos(app), "upper levels recovered before the containers are written", "the container-level cpusets can be written while the pod level still holds the suppressed set (recoverCPUSetIfNeed no longer precedes applyCPUSetWithStaticPolicy on every path): a container set outside its parent's set is rejected by the kernel or leaves an invalid hierarchy")
 }
